@@ -305,6 +305,50 @@ func c17h(c *Ctx) {
 			c.Check(okSide, fmt.Sprintf("std-streams-iff-no-path/%s@%s", fn.Name(), n), c.W.Pos(ci.Pos()), "standard input / output is used exactly when no path was given", fn.Name()+" calls "+n+" under ["+pretty(has)+"]: expected "+map[bool]string{true: "the path to be empty", false: "a path to be given"}[wantEmpty]+" — with the test the other way round the compiler reads (or overwrites) the wrong thing")
 		}
 	}
+	// (2e) a file that was named is read: in a function of package main that reads the file named by
+	// its path parameter, a return that the read does not lead to stands under "no path was given"
+	for _, fn := range mains {
+		var pathPar *ssa.Parameter
+		for _, p := range fn.Params {
+			if b, ok := p.Type().Underlying().(*types.Basic); ok && b.Kind() == types.String && strings.Contains(strings.ToLower(p.Name()), "path") {
+				pathPar = p
+			}
+		}
+		if pathPar == nil {
+			continue
+		}
+		for _, ci := range callsIn(fn) {
+			if n := calleeName(ci); n != "io/ioutil.ReadFile" && n != "os.ReadFile" {
+				continue
+			}
+			if len(ci.Common().Args) != 1 || ci.Common().Args[0] != ssa.Value(pathPar) {
+				continue
+			}
+			pt := c.term(fn, pathPar)
+			// ways on which the path is known to be empty are not followed
+			notEmptyEdge := func(from *ssa.BasicBlock, succ int) bool {
+				if len(from.Instrs) == 0 {
+					return true
+				}
+				fi, isIf := from.Instrs[len(from.Instrs)-1].(*ssa.If)
+				if !isIf {
+					return true
+				}
+				t := c.term(fn, fi.Cond)
+				sign := "+"
+				if succ == 1 {
+					sign = "-"
+				}
+				return !(strings.Contains(t, pt) && guardClass(verRe.ReplaceAllString(normLit(sign+t), "")) == "EMPTY")
+			}
+			w, skips := existsPath(pathQuery{from: entry(fn), edgeOK: notEmptyEdge, avoid: func(in ssa.Instruction) bool { return in == ci.(ssa.Instruction) }, exitIs: true, target: func(ssa.Instruction) bool { return false }})
+			where := ""
+			if skips {
+				where = c.nearPos(w)
+			}
+			c.Check(!skips, "named-file-is-read/"+fn.Name(), c.W.Pos(ci.Pos()), "the function returns without reading the file only when no file was named", fn.Name()+" can return ("+where+") without reading the file although a path was given: the file the user named is silently ignored")
+		}
+	}
 	// (3) the output file is emptied when it is opened
 	for _, fn := range mains {
 		for _, ci := range callsIn(fn) {
